@@ -244,6 +244,12 @@ func (c *Ctx) MarkShared(x any) {}
 // TrackFootprint switches write-footprint checking on or off.
 func (c *Ctx) TrackFootprint(on bool) {}
 
+// FsOwner names the session on whose behalf the following file-system calls
+// are made ("" = nobody). Under the executor a path that is created, written,
+// renamed or removed on behalf of two different sessions is a footprint
+// violation; natively this is a no-op.
+func (c *Ctx) FsOwner(session string) {}
+
 // Or, And, Implies: Boolean connectives that do not short-circuit, so that
 // under the symbolic executor a compound condition is one term instead of a
 // fork per operand (both operands are always evaluated).
